@@ -348,6 +348,10 @@ struct Track {
     unshipped: BTreeMap<(usize, u8), Culprit>,
     last: BTreeMap<(usize, u8), View>,
     stamp: BTreeMap<(usize, u8), Option<Stamp>>,
+    /// (replica, key): the replica has held a whole-key non-hash state of the key (tombstone, string) at some point
+    saw_whole_key_change: BTreeSet<(usize, u8)>,
+    /// keys for which some replica issued a hash update after it had held such a state (a new incarnation of the hash)
+    recreated: BTreeSet<u8>,
 }
 
 impl Track {
@@ -355,6 +359,9 @@ impl Track {
         self.last.get(&(r, k)).map(|v| v.class()).unwrap_or_else(|| "none".into())
     }
     fn observe(&mut self, r: usize, k: u8, l: &Look, mut c: Culprit) {
+        if l.rvc.starts_with("tomb") || l.rvc.starts_with("string") || l.rvc.starts_with("empty") {
+            self.saw_whole_key_change.insert((r, k));
+        }
         // the culprit is the latest step after which the kind of incoherence changed
         match diff(&l.served, &l.state) {
             None => {
@@ -462,7 +469,19 @@ fn judge_key(pfx: &str, k: u8, looks: &[Look], truth: &[ReplicatedValue], tr: &T
         if !unshipped(out) {
             // did the key change type along the way (deltas of both kinds), or is this a plain same-type merge?
             let hashes = truth.iter().filter(|v| v.is_hash()).count();
-            let what = if comp == "ttl" { "" } else if hashes == 0 || hashes == truth.len() { ",history=one-type" } else { ",history=type-changes" };
+            // Facets of a type-change history. With a single hash writer that never starts a new incarnation of
+            // the hash (no HSET after that replica held a DEL tombstone or a string for the key) every hash delta
+            // is a complete, monotone snapshot of that writer's hash, and whole-key writes of other replicas are
+            // decided by the outer stamp alone: that class must converge. Several hash writers, or a re-created
+            // hash, are where the missing incarnation of the hash/hash merge shows (listed finding).
+            let writers: BTreeSet<u64> = truth.iter().filter(|v| v.is_hash()).map(|v| stamp(v).1).collect();
+            let what = if comp == "ttl" {
+                "".to_string()
+            } else if hashes == 0 || hashes == truth.len() {
+                ",history=one-type".to_string()
+            } else {
+                format!(",history=type-changes,hash-writers={},{}", if writers.len() <= 1 { "one" } else { "many" }, if tr.recreated.contains(&k) { "hash-recreated-after-delete" } else { "hash-never-recreated" })
+            };
             let kinds: BTreeSet<String> = looks.iter().map(|l| if comp == "ttl" { l.rvc.replace("<1s", "") } else { no_ttl(&l.rvc.replace("<1s", "").replace("hash0", "hash")) }).collect();
             out.push(Finding {
                 sig: format!("C06|{}merge|replicas_differ:{}|states={}{}", pfx, comp, kinds.into_iter().collect::<Vec<_>>().join(","), what),
@@ -630,6 +649,12 @@ async fn run_nodes(case: &Case, rep: &mut Report) -> Vec<Finding> {
                 let (lab, ks) = (label(cmd), touched(*key, cmd));
                 let priors: Vec<String> = ks.iter().map(|k| run.tr.prior(*at, *k)).collect();
                 let (resp, ds) = run.nodes[*at].exec(to_command(*key, cmd)).await;
+                for d in &ds {
+                    let dk: u8 = d.key[1..].parse().unwrap_or(0);
+                    if d.value.is_hash() && run.tr.saw_whole_key_change.contains(&(*at, dk)) {
+                        run.tr.recreated.insert(dk);
+                    }
+                }
                 let err = match &resp {
                     RespValue::Error(e) if e.starts_with("ERR shard") => {
                         run.died(&lab, &format!("prior={}", priors[0]), text(&resp));
@@ -884,8 +909,14 @@ fn run_case(case: &Case, rep: &mut Report) -> Vec<Finding> {
     }
 }
 
+/// Signature without the facets that shrinking is allowed to change (they are recomputed on the minimal witness).
+fn coarse(sig: &str) -> String {
+    sig.replace(",hash-recreated-after-delete", "").replace(",hash-never-recreated", "").replace(",hash-writers=one", "").replace(",hash-writers=many", "")
+}
+
 fn has_sig(case: &Case, sig: &str) -> bool {
-    run_case(case, &mut Report::new("C06", "scratch")).iter().any(|f| f.sig == sig)
+    let want = coarse(sig);
+    run_case(case, &mut Report::new("C06", "scratch")).iter().any(|f| coarse(&f.sig) == want)
 }
 
 /// Greedy minimisation: drop steps (then replicas' worth of noise: fin order, causal flag) while the signature stays.
@@ -930,8 +961,15 @@ fn do_case(rep: &mut Report, case: &Case, part: &str) {
             rep.count("violations_raw");
             continue;
         }
+        // the same raw signature may shrink to a witness of another class: try a few times, not for ever
+        let tries = rep.counters.get(&format!("shrunk:{}", f.sig)).copied().unwrap_or(0);
+        if tries >= 4 {
+            rep.count("violations_raw");
+            continue;
+        }
+        rep.count(&format!("shrunk:{}", f.sig));
         let small = shrink(case, &f.sig);
-        let again = run_case(&small, &mut Report::new("C06", "scratch")).into_iter().find(|g| g.sig == f.sig);
+        let again = run_case(&small, &mut Report::new("C06", "scratch")).into_iter().find(|g| coarse(&g.sig) == coarse(&f.sig));
         let (wcase, wf) = match again { Some(g) => (small, g), None => (case.clone(), f) };
         let ops: Vec<String> = wcase.steps.iter().map(|s| match s { Step::Op { at, key, cmd, .. } => format!("#{} {} {}", at, label(cmd), kname(*key)), Step::Deliver { op, to } => format!("deliver op{}->#{}", op, to), o => format!("{:?}", o) }).collect();
         rep.violation(wf.sig.clone(), format!("{} | minimal history ({}): {}", wf.detail, wcase.subject, ops.join("; ")), json!({"case": wcase, "observed": wf.obs, "found_in": part}));
